@@ -15,6 +15,7 @@ import DaskModel.Model.CoarsenAlign
 import DaskModel.Model.Coarsen2D
 import DaskModel.Model.HistogramDD
 import DaskModel.Model.RavelIndex
+import DaskModel.Model.UniqueNaNIO
 import DaskModel.Generated.ChunkTolerance
 open Dask
 open Dask.Chunks
@@ -1023,6 +1024,6 @@ def table : List (String × Handler) := [
   ("merge_to_number", hMergeNum), ("graph_size", hGraphSize),
   ("merge_full", hMergeFull), ("find_split", hFindSplit), ("find_merge", hFindMerge), ("plan", hPlan),
   ("rechunk_locate", hRechunkLocate), ("auto_chunks", hAutoChunks), ("auto_sound", hAutoSound),
-  ("balance", hBalance)]
+  ("balance", hBalance)] ++ Dask.UniqueNaNIO.handlers
 
 def main : IO Unit := runDriver table
